@@ -2045,7 +2045,7 @@ static uint32_t compute_default_look_ahead(
     else
         lad = config->intra_period_length;
 
-    return lad;
+    return lad > MAX_LAD ? MAX_LAD : lad; // the default must itself pass verify_settings
 }
 
 // Only use the maximum look ahead needed if
